@@ -194,4 +194,4 @@ def cases(draw):
 
 
 def subs(tier):
-    return [Sub("parseval", cases(), run_case, quick=25000, thorough=80000)]
+    return [Sub("parseval", cases(), run_case, quick=25000, thorough=600000)]
